@@ -46,3 +46,30 @@ Example C06_nonvacuous :
   store BE (norm ex_t) ex_v <> store LE (norm ex_t) ex_v /\
   c_encode_ty BE LE ex_t (store LE (norm ex_t) ex_v) <> COk (wire ex_t ex_v).
 Proof. vm_compute. repeat split; try reflexivity; intros H; discriminate H. Qed.
+
+(* ---------- optimization-mode half: the value-based big-endian branch of -O output ---------- *)
+From BP Require OpMode OpModeProofs.
+
+(* the statements emitted under --endian big (and under --endian both with BP_BIG_ENDIAN
+   defined) mention only VALUES of the fields, and encode / decode exactly Spec.wire *)
+Theorem C06_opmode_be_enc : forall t v,
+  OpMode.opmode_ok (norm t) = true -> wf (norm t) = true -> has_ty (norm t) v = true ->
+  OpMode.run_encode (OpMode.c_be_body true t) t v = Some (wire t v).
+Proof. exact OpModeProofs.c_be_encode. Qed.
+Print Assumptions C06_opmode_be_enc.
+
+Theorem C06_opmode_be_dec : forall t v,
+  OpMode.opmode_ok (norm t) = true -> wf (norm t) = true -> has_ty (norm t) v = true ->
+  OpMode.run_decode (OpMode.c_be_body false t) t (wire t v) = Some (OpMode.store (norm t) v).
+Proof. exact OpModeProofs.c_be_decode. Qed.
+Print Assumptions C06_opmode_be_dec.
+
+(* whatever --endian setting and whether or not BP_BIG_ENDIAN is defined: same wire bytes *)
+Theorem C06_opmode_endian_select : forall t v,
+  OpMode.opmode_ok (norm t) = true -> wf (norm t) = true -> has_ty (norm t) v = true ->
+  forall (e : OpMode.endian) (macro_defined : bool),
+  OpMode.run_encode (OpMode.select macro_defined (OpMode.c_body e true t)) t v = Some (wire t v) /\
+  OpMode.run_decode (OpMode.select macro_defined (OpMode.c_body e false t)) t (wire t v)
+    = Some (OpMode.store (norm t) v).
+Proof. exact OpModeProofs.endian_select. Qed.
+Print Assumptions C06_opmode_endian_select.
